@@ -29,7 +29,7 @@ STUBS = ['file object -> in-memory text file (GroFile officially accepts an open
 ASSUMPTIONS = ['the cursor states reachable by earlier accesses are exactly "positioned at the beginning of some atom line or of the box line" (every access seeks before reading)']
 CASE_TIMEOUT = {'quick': 900, 'thorough': 3000}
 
-KINDS = {'a': ('A', 1), 'A': ('A', 2), 'B': ('B', 2), 'C': ('C', 3)}
+KINDS = {'a': ('A', 1), 'A': ('A', 2), 'B': ('B', 2), 'C': ('C', 3)}      # 'a' and 'A' share the residue name and 'a' is an atom-name prefix of 'A'
 
 
 def _layout_records(layout, vel=False, renumber=True):
@@ -88,24 +88,43 @@ def run_case(case):
             expected.append([tuple(r[:4]) + tuple(round(float(x), 6) for x in r[4:]) for r in recs[start:start + size]])
             start += size
         nres, nat = len(layout), len(recs)
-        sg = SystemGro(MemFile(text, 'layout.gro'))
-        ok = (len(sg) == nres and sg.n_atoms == nat and [res_tuple(r) for r in sg] == expected and
-              sg.comment_line.strip() == 'layout ' + layout and np.allclose(sg.box_matrix, np.diag([3.0, 4.0, 5.0])))
+        try:
+            sg = SystemGro(MemFile(text, 'layout.gro'))
+            ok = (len(sg) == nres and sg.n_atoms == nat and [res_tuple(r) for r in sg] == expected and
+                  sg.comment_line.strip() == 'layout ' + layout and np.allclose(sg.box_matrix, np.diag([3.0, 4.0, 5.0])))
+        except Exception as e:           # a failure of the real code on a well-formed file is a finding
+            ok = False
+            sg = None
         rec = {'name': '%s: iteration tiles the file into the expected residues; counts, box and title agree' % layout,
                'status': 'unsat' if ok else 'sat', 'secs': 0}
         if not ok:
             rec['witness'] = {'kind': 'access', 'layout': layout, 'vel': case['vel'], 'cursor': 0, 'op': 'iter'}
         records.append(rec)
+        if sg is None:
+            continue
         cv, kv, av, bv = z3.Int('cursor'), z3.Int('k'), z3.Int('a'), z3.Int('b')
 
         def run(ctx, mode):
             ctx.assume(z3.And(cv >= 0, cv <= nat))
             c = SymInt(cv, 0, nat).concretize()
+            # history before the access under test: an indexed fetch, a partial iteration, then an arbitrary stale cursor
+            try:
+                pre = c % nres
+                sg[pre]
+                it = iter(sg)
+                for _ in range(c % (nres + 1)):
+                    next(it)
+                del it
+            except Exception:
+                pass
             sg._open_fgro.seek_atom(c)                      # arbitrary stale cursor left by an earlier access
             if mode == 'index':
                 ctx.assume(z3.And(kv >= -nres, kv < nres))
                 k = SymInt(kv, -nres, nres - 1).concretize()
-                return c, k, res_tuple(sg[k])
+                try:
+                    return c, k, res_tuple(sg[k])
+                except Exception as e:
+                    return c, k, 'raised %s' % type(e).__name__
             if mode == 'oob':
                 ctx.assume(z3.Or(kv == nres, kv == -nres - 1))
                 k = SymInt(kv, -nres - 1, nres).concretize()
@@ -117,7 +136,10 @@ def run_case(case):
             ctx.assume(z3.And(av >= 0, av <= bv, bv <= nres))
             a = SymInt(av, 0, nres).concretize()
             b = SymInt(bv, 0, nres).concretize()
-            return c, (a, b), [res_tuple(r) for r in sg[a:b]]
+            try:
+                return c, (a, b), [res_tuple(r) for r in sg[a:b]]
+            except Exception as e:
+                return c, (a, b), 'raised %s' % type(e).__name__
 
         for mode in ('index', 'slice', 'oob'):
             cover = []
@@ -181,7 +203,10 @@ def replay(w):
     p = os.path.join(d, 'layout.gro')
     open(p, 'w').write(text)
     try:
-        sg = SystemGro(p)
+        try:
+            sg = SystemGro(p)
+        except Exception as e:
+            return {'reproduced': True, 'what': 'SystemGro (layout %s): loading raised %s: %s' % (layout, type(e).__name__, str(e)[:80]), 'detail': {}}
         expected, start = [], 0
         for k in layout:
             size = KINDS[k][1]
@@ -189,9 +214,21 @@ def replay(w):
             start += size
         ids = lambda res: [(a.resid, a.resname, a.name, a.atomid) for a in res]
         bad = []
-        if [ids(r) for r in sg] != expected or len(sg) != len(layout):
-            bad.append('iteration does not tile the file into the written residues')
-        sg._open_fgro.seek_atom(w.get('cursor', 0))
+        try:
+            if [ids(r) for r in sg] != expected or len(sg) != len(layout):
+                bad.append('iteration does not tile the file into the written residues')
+        except Exception as e:
+            bad.append('iteration raised %s' % type(e).__name__)
+        c = w.get('cursor', 0)
+        try:
+            sg[c % len(layout)]
+            it = iter(sg)
+            for _ in range(c % (len(layout) + 1)):
+                next(it)
+            del it
+        except Exception:
+            pass
+        sg._open_fgro.seek_atom(c)
         op, arg = w.get('op'), w.get('arg')
         try:
             if op == 'index' and ids(sg[arg]) != expected[arg]:
